@@ -5,6 +5,7 @@ import anneal_common as A
 from props import c11
 
 ID = "C12"
+ISOLATE = True      # the implementation side runs in child processes: a crash of the C extension is reported, not fatal
 IMPORTS = c11.IMPORTS
 CASE_TYPE, RUN, EQB = c11.CASE_TYPE, c11.RUN, c11.EQB
 CHUNK = 20
